@@ -89,6 +89,38 @@ func subset(c *Ctx, ids party.IDSlice, k int) party.IDSlice {
 	return party.NewIDSlice(out)
 }
 
+// presented: the signer list as ONE party hands it to a start function. The start functions take any order (the session
+// sorts its own copy): in a third of the sessions every party lists itself first, then the others in a seeded order.
+func presented(c *Ctx, signers party.IDSlice, self party.ID, mode int) []party.ID {
+	if mode == 0 {
+		return signers
+	}
+	out := []party.ID{self}
+	rest := []party.ID{}
+	for _, id := range signers {
+		if id != self {
+			rest = append(rest, id)
+		}
+	}
+	if mode == 2 { // reverse order
+		for i := len(rest) - 1; i >= 0; i-- {
+			out = append(out, rest[i])
+		}
+		return out
+	}
+	return append(out, rest...)
+}
+
+func presentMode(c *Ctx) (int, string) {
+	switch c.Intn(6) {
+	case 0:
+		return 1, "+self-first-list"
+	case 1:
+		return 2, "+self-first-reversed-list"
+	}
+	return 0, ""
+}
+
 // ---- FROST ------------------------------------------------------------------------------------------
 
 func frostKeygen(c *Ctx, ids party.IDSlice, t int, taprootKind bool, sid []byte) (map[party.ID]*frost.Config, map[party.ID]*frost.TaprootConfig, sessionResult) {
@@ -153,13 +185,15 @@ func emitKeygen(c *Ctx, kind string, ids party.IDSlice, t int, parties []J, res 
 func frostSign(c *Ctx, cfgs map[party.ID]*frost.Config, tcfgs map[party.ID]*frost.TaprootConfig, signers party.IDSlice, msg []byte, sid []byte, label string) {
 	hs := map[party.ID]protocol.Handler{}
 	kind := "frost"
+	pmode, plabel := presentMode(c)
+	label += plabel
 	for _, id := range signers {
 		var st protocol.StartFunc
 		if tcfgs != nil {
 			kind = "frost-taproot"
-			st = frost.SignTaproot(tcfgs[id], signers, msg)
+			st = frost.SignTaproot(tcfgs[id], presented(c, signers, id, pmode), msg)
 		} else {
-			st = frost.Sign(cfgs[id], signers, msg)
+			st = frost.Sign(cfgs[id], presented(c, signers, id, pmode), msg)
 		}
 		h, err := protocol.NewMultiHandler(st, sid)
 		if err != nil {
@@ -291,12 +325,14 @@ func cmpSign(c *Ctx, cfgs map[party.ID]*cmp.Config, signers party.IDSlice, msg [
 	if presign {
 		kind = "cmp-presign"
 	}
+	pmode, plabel := presentMode(c)
+	label += plabel
 	for _, id := range signers {
 		var st protocol.StartFunc
 		if presign {
-			st = cmp.Presign(cfgs[id], signers, nil)
+			st = cmp.Presign(cfgs[id], presented(c, signers, id, pmode), nil)
 		} else {
-			st = cmp.Sign(cfgs[id], signers, msg, nil)
+			st = cmp.Sign(cfgs[id], presented(c, signers, id, pmode), msg, nil)
 		}
 		h, err := protocol.NewMultiHandler(st, sid)
 		if err != nil {
@@ -309,6 +345,7 @@ func cmpSign(c *Ctx, cfgs map[party.ID]*cmp.Config, signers party.IDSlice, msg [
 	if presign && res.Panic == "" {
 		// online phase
 		hs2 := map[party.ID]protocol.Handler{}
+		preOf := res.Results
 		for _, id := range signers {
 			pre, ok := res.Results[id].(*ecdsa.PreSignature)
 			if !ok {
@@ -323,6 +360,22 @@ func cmpSign(c *Ctx, cfgs map[party.ID]*cmp.Config, signers party.IDSlice, msg [
 		}
 		if len(hs2) == len(signers) {
 			res = runSessions(c, hs2, randOrder(c), nil)
+			if res.Panic == "" && len(res.Errors) == 0 && c.Intn(2) == 0 {
+				// the online phase once more with the SAME in-memory presignatures and the same message (a retry after a
+				// lost result): computing a signature share must not change the presignature it is computed from
+				hs3 := map[party.ID]protocol.Handler{}
+				for _, id := range signers {
+					pre, _ := preOf[id].(*ecdsa.PreSignature)
+					h, err := protocol.NewMultiHandler(cmp.PresignOnline(cfgs[id], pre, msg, nil), sid)
+					if err != nil {
+						c.Emit("sign", J{"kind": kind, "label": label + "+online-retry", "start_error": err.Error()}, J{"ok": true})
+						return
+					}
+					hs3[id] = h
+				}
+				res = runSessions(c, hs3, randOrder(c), nil)
+				label += "+online-retry"
+			}
 		}
 	}
 	sigs := []J{}
